@@ -359,8 +359,10 @@ class SchemaBuilder(
         if flattened_schemas:
             return json_schema(
                 allOf=result + flattened_schemas,
-                # True is the default value and is not emitted
-                unevaluatedProperties=additional_properties is True,
+                # True is the default value and is not emitted; an additional properties
+                # field typed Any gives the empty schema, which is not emitted either
+                unevaluatedProperties=additional_properties is True
+                or additional_properties == {},
             )
         elif len(result) == 1:
             return result[0]
